@@ -112,7 +112,9 @@ EMPTY_OK = {b"/empty.txt", b"/emptydir"}
 NAMES = [b"xURL:y", b"faq:general", b"re: hello", b"mailto:x", b"plain", b"sp ace", b"a&b", b"a?b", b"a|b", b"a#b", b"a%41", b"\xc3\xa9", b"\xae", b"a+b", b"a;b=c", b"a:b", b"a\\b",
          b'q"uote', b"lt<gt>", b"a'b", b" lead", b"-dash", b"a%2Fb", b"a=b&c=d", b"UPPER", b"a,b", b"(p)", b"[b]", b"{c}", b"a^b`c", b"a$b", b"a@b", b"a!b", b"a*b",
          # valid UTF-8 that Unicode normalisation would rewrite: a combining accent, the Angstrom sign, a compatibility ideograph, a ligature
-         b"cafe\xcc\x81", b"\xe2\x84\xab", b"\xef\xa4\x80", b"\xef\xac\x81le"]
+         b"cafe\xcc\x81", b"\xe2\x84\xab", b"\xef\xa4\x80", b"\xef\xac\x81le",
+         # names that look like special files only to a case-insensitive eye
+         b"INDEX.GOPHERMAP", b"Readme.Gophermap", b"ARCHIVE.ZIP", b"Mail.MBOX"]
 URL_ONLY_NAMES = [b"tab\tname", b"lf\nname", b"trail "]
 
 
